@@ -1,7 +1,8 @@
+import Huginn.Drv.C03
 import Huginn.Drv.C14
 namespace Huginn.Drv
 
 def allHandlers : List (String × (String → P Verdict)) :=
-  Huginn.Drv.C14.handlers
+  Huginn.Drv.C03.handlers ++ Huginn.Drv.C14.handlers
 
 end Huginn.Drv
